@@ -11,6 +11,7 @@ import (
 type Clause struct {
 	Label string
 	Props []string // nil: inherit from function
+	Uses  []string // nil: every assumption; else only the named invariants / callee postconditions (plus preconditions)
 	E     Expr
 	Src   string
 }
@@ -315,6 +316,19 @@ func parseClause(s string) (Clause, error) {
 			cl.Props = strings.Fields(strings.NewReplacer("{", "", "}", "", ",", " ").Replace(m[2]))
 		}
 		s = s[len(m[0]):]
+	}
+	if strings.HasPrefix(s, "uses(") {
+		j := strings.Index(s, ")")
+		if j < 0 {
+			return cl, fmt.Errorf("unterminated uses(")
+		}
+		cl.Uses = []string{}
+		for _, u := range strings.Split(s[5:j], ",") {
+			if u = strings.TrimSpace(u); u != "" {
+				cl.Uses = append(cl.Uses, u)
+			}
+		}
+		s = strings.TrimSpace(s[j+1:])
 	}
 	e, err := parseExpr(s)
 	if err != nil {
